@@ -7,8 +7,13 @@ package clientworld
 
 import (
 	"crypto"
+	"crypto/ecdsa"
+	_ "crypto/md5" // registration
 	"crypto/rand"
+	"crypto/rsa"
+	_ "crypto/sha1" // registration
 	"crypto/sha256"
+	_ "crypto/sha512" // registration
 	"encoding/base64"
 	"encoding/json"
 	"fmt"
@@ -58,6 +63,57 @@ func signDS(k *oracle.Key, msg []byte) []byte {
 	return dsBytes(4, alg, sig)
 }
 
+// TLS HashAlgorithm codes (RFC 5246 §7.4.1.4.1) and their standard-library hashes.
+var tlsHashes = map[int]crypto.Hash{1: crypto.MD5, 2: crypto.SHA1, 3: crypto.SHA224, 4: crypto.SHA256, 5: crypto.SHA384, 6: crypto.SHA512}
+
+// signDSHash is signDS with another hash algorithm: a cryptographically valid signature of the key
+// over msg that RFC 6962 (SHA-256 only) does not provide for.
+func signDSHash(k *oracle.Key, msg []byte, hashAlg int) []byte {
+	h := tlsHashes[hashAlg]
+	hh := h.New()
+	hh.Write(msg)
+	sig, err := k.Priv.Sign(rand.Reader, hh.Sum(nil), h)
+	if err != nil {
+		panic("harness: sign: " + err.Error())
+	}
+	alg := byte(3)
+	if k.Kind == "rsa2048" {
+		alg = 1
+	}
+	return dsBytes(byte(hashAlg), alg, sig)
+}
+
+// verifyDSAny checks a DigitallySigned under pub with the hash algorithm it declares (standard
+// library only). SHA-256 goes through the oracle library.
+func verifyDSAny(pub crypto.PublicKey, msg []byte, d *oracle.DigitallySigned) error {
+	if d.HashAlg == 4 {
+		return oracle.VerifyDS(pub, msg, d)
+	}
+	h, ok := tlsHashes[d.HashAlg]
+	if !ok {
+		return fmt.Errorf("hash algorithm %d", d.HashAlg)
+	}
+	hh := h.New()
+	hh.Write(msg)
+	sum := hh.Sum(nil)
+	switch k := pub.(type) {
+	case *ecdsa.PublicKey:
+		if d.SigAlg != 3 {
+			return fmt.Errorf("signature algorithm %d for ECDSA key", d.SigAlg)
+		}
+		if !ecdsa.VerifyASN1(k, sum, d.Sig) {
+			return fmt.Errorf("ECDSA signature does not verify")
+		}
+		return nil
+	case *rsa.PublicKey:
+		if d.SigAlg != 1 {
+			return fmt.Errorf("signature algorithm %d for RSA key", d.SigAlg)
+		}
+		return rsa.VerifyPKCS1v15(k, h, sum, d.Sig)
+	}
+	return fmt.Errorf("unsupported key type %T", pub)
+}
+
 func dsBytes(hashAlg, sigAlg byte, sig []byte) []byte {
 	out := []byte{hashAlg, sigAlg, byte(len(sig) >> 8), byte(len(sig))}
 	return append(out, sig...)
@@ -76,6 +132,8 @@ type pki struct {
 	root   *oracle.Cert
 	inter  *oracle.Cert // issuing CA (may be the root itself)
 	pre    *oracle.Cert // optional precert-signing certificate under inter
+	// notAfter, when set, is the NotAfter of the next leaf (temporal shard edges)
+	notAfter time.Time
 }
 
 var caKinds = []string{"p256", "p256", "rsa2048", "p384", "ed25519"}
@@ -162,8 +220,12 @@ func (p *pki) newSubmissionVia(t *kernel.Tape, id int, isPre, rich bool, via int
 		exts = permute(t, exts)
 	}
 	p.serial++
+	notAfter := p.epoch.AddDate(0, 6, 0)
+	if !p.notAfter.IsZero() {
+		notAfter, p.notAfter = p.notAfter, time.Time{}
+	}
 	leaf := oracle.Build(oracle.CertSpec{CN: fmt.Sprintf("leaf %d", id), Serial: p.serial, Key: p.rr.key(kind), Issuer: issuer,
-		NotBefore: p.epoch.AddDate(0, -1, 0), NotAfter: p.epoch.AddDate(0, 6, 0), Exts: exts})
+		NotBefore: p.epoch.AddDate(0, -1, 0), NotAfter: notAfter, Exts: exts})
 	return &submission{id: id, leaf: leaf, issuers: issuers, isPre: isPre, entry: leaf.EntryFor()}
 }
 
